@@ -16,7 +16,16 @@ static long g_count = 0, g_fail_at = -1; static int g_armed = 0; static int g_fa
 static void* g_sites[MAX_SITES]; static int g_nsites = 0;
 void __sanitizer_print_stack_trace(void);
 static void on_fail(void) { g_failed = 1; if (getenv("C19_TRACE")) { fprintf(stderr, "INJECTED-FAILURE at allocation #%ld\n", g_count); __sanitizer_print_stack_trace(); } }
-static void note_site(void* ra) { for (int i = 0; i < g_nsites; i++) if (g_sites[i] == ra) return; if (g_nsites < MAX_SITES) g_sites[g_nsites++] = ra; }
+/* call-stack signature of every allocation request of the fault-free run (frame-pointer walk, 8 frames): the check uses it to
+ * fail at least the first, second and last request of every distinct stack, so that rare contexts of a common allocator
+ * (a buffer growing inside one particular field writer) are reached even when the long histories are sampled */
+static uint64_t* g_sigs = NULL; static long g_nsigs = 0, g_capsigs = 0; static int g_sigs_on = 0;
+void* __real_realloc(void*, size_t);
+extern void* __libc_stack_end;
+__attribute__((no_sanitize_address)) static void note_sig(void** fp) { if (!g_sigs_on) return; uint64_t h = 1469598103934665603ULL; char* lo = (char*)fp; char* hi = (char*)__libc_stack_end - 16; if (lo > hi || hi - lo > (8 << 20)) hi = lo + 8;   /* not the main thread's stack: first frame only */
+    for (int i = 0; i < 8; i++) { if ((char*)fp < lo || (char*)fp > hi || ((uintptr_t)fp & 7)) break; void* ra = fp[1]; h = (h ^ (uint64_t)(uintptr_t)ra) * 1099511628211ULL; void** nx = (void**)fp[0]; if (nx <= fp) break; fp = nx; }
+    if (g_nsigs == g_capsigs) { g_capsigs = g_capsigs ? g_capsigs * 2 : 4096; g_sigs = __real_realloc(g_sigs, (size_t)g_capsigs * 8); } g_sigs[g_nsigs++] = h; }
+static void note_site(void* ra) { note_sig((void**)__builtin_frame_address(0)); for (int i = 0; i < g_nsites; i++) if (g_sites[i] == ra) return; if (g_nsites < MAX_SITES) g_sites[g_nsites++] = ra; }
 void* __real_malloc(size_t); void* __real_calloc(size_t, size_t); void* __real_realloc(void*, size_t); char* __real_strdup(const char*);
 void* __wrap_malloc(size_t n) { if (g_armed) { note_site(__builtin_return_address(0)); if (++g_count == g_fail_at) { on_fail(); return NULL; } } return __real_malloc(n); }
 void* __wrap_calloc(size_t a, size_t b) { if (g_armed) { note_site(__builtin_return_address(0)); if (++g_count == g_fail_at) { on_fail(); return NULL; } } return __real_calloc(a, b); }
@@ -120,7 +129,7 @@ static int run_scenario(const char* sc, const char* file, const char* tdmp) {
 
 int main(int argc, char** argv) {
     if (argc < 4) return 2; (void)carquet_init();
-    if (!strcmp(argv[1], "count")) { TMP = argv[3]; g_fail_at = -1; int rc = run_scenario(argv[2], argc > 4 ? argv[4] : NULL, argc > 5 ? argv[5] : NULL); if (rc) { printf("VIOL fault-free-run-fails:%s | %s\n", argv[2], msg); } printf("K %ld SITES %d\n", g_count, g_nsites); return 0; }
+    if (!strcmp(argv[1], "count")) { TMP = argv[3]; g_fail_at = -1; g_sigs_on = getenv("C19_SIGMAP") != NULL; int rc = run_scenario(argv[2], argc > 4 ? argv[4] : NULL, argc > 5 ? argv[5] : NULL); if (rc) { printf("VIOL fault-free-run-fails:%s | %s\n", argv[2], msg); } if (g_sigs_on) { FILE* sf = fopen(getenv("C19_SIGMAP"), "wb"); if (sf) { fwrite(g_sigs, 8, (size_t)g_nsigs, sf); fclose(sf); } } printf("K %ld SITES %d\n", g_count, g_nsites); return 0; }
     if (!strcmp(argv[1], "run") && argc >= 5) { TMP = argv[4]; g_fail_at = atol(argv[3]); int rc = run_scenario(argv[2], argc > 5 ? argv[5] : NULL, argc > 6 ? argv[6] : NULL);
         if (rc) printf("VIOL alloc-failure:wrong-result-reported-as-success:%s | k=%ld %s\n", argv[2], g_fail_at, msg);
         printf("OUTCOME %s k=%ld failed_injected=%d sites=%d\n", argv[2], g_fail_at, g_failed, g_nsites); return 0; }
